@@ -31,6 +31,6 @@ RULE = ("per module (nurikabe, masyu, slitherlink, sudoku, nurimisaki, yajilin i
         "decode(encode(p)) == p with dimensions; the URL carries name/width/height in puzz.link order; the independent pzpr decoder "
         "(when present and validated) reads the same problem; util.encode_array / encode_grid_segmentation produce the same text as "
         "the combinator codecs on identical data")
-TECHNIQUE = "pyvc (proved): serialize_problem / deserialize_problem (one combinator call under (height, width), single item) and the serialize_<puzzle> / deserialize_<puzzle> wrappers of nurikabe, nurimisaki, sudoku, slitherlink, masyu, yajilin (same combinator object both ways, pzpr name admitted by the decoder, height = rows, width = first row) ; pyvc (proved): the custom leaf YajilinClue — clues with numbers 0..15 and the unknown clue ?? round-trip with exactly two characters for any surrounding text, the blank .. is refused, the reader answers only on a first character 0..4 with two characters left (numbers >= 16 are the recorded known finding and outside the contract) — with the C15 chain (leaf contracts, step contracts, Lean composition lemmas) the round trip of the first five follows for every board; pyvc (proved, all names/sizes/bodies): the URL frame — serialize_problem_as_url = prefix + name + / + WIDTH + / + HEIGHT + / + body, get_puzzle_info_from_url, deserialize_problem_as_url (fields not swapped, allowed_puzzles, allow_failure, return_size order; the compiled pattern by contract, natively the real one); plus round-trip and format contracts on the real URL codecs against three oracles (own decoder, independent pzpr decoder, the other encoder family); bounded"
-LEVEL_TEXT = "exploration: the shared URL frame and the wrapper layers are proved, and for nurikabe / nurimisaki / sudoku / slitherlink / masyu the body round trip is carried by C15's lemmas (listed in C15's evidence); agreement with puzz.link's own reader, yajilin / heyawake / lits / norinori / compass bodies and the legacy encoders stay bounded; the puzzle bodies (combinator compositions, legacy encoders) are checked on seeded problems per module and board shape; three oracles"
+TECHNIQUE = "pyvc (proved): serialize_problem / deserialize_problem (one combinator call under (height, width), single item) and the serialize_<puzzle> / deserialize_<puzzle> wrappers of nurikabe, nurimisaki, sudoku, slitherlink, masyu, yajilin (same combinator object both ways, pzpr name admitted by the decoder, height = rows, width = first row) ; pyvc (proved): the custom leaf YajilinClue — clues with numbers 0..15 and the unknown clue ?? round-trip with exactly two characters for any surrounding text, the blank .. is refused, the reader answers only on a first character 0..4 with two characters left (numbers >= 16 are the recorded known finding and outside the contract) — with the C15 chain (leaf contracts, step contracts, Lean composition lemmas) the round trip of the first five follows for every board, that of yajilin for every board with clue numbers 0..15; pyvc (proved, all names/sizes/bodies): the URL frame — serialize_problem_as_url = prefix + name + / + WIDTH + / + HEIGHT + / + body, get_puzzle_info_from_url, deserialize_problem_as_url (fields not swapped, allowed_puzzles, allow_failure, return_size order; the compiled pattern by contract, natively the real one); plus round-trip and format contracts on the real URL codecs against three oracles (own decoder, independent pzpr decoder, the other encoder family); bounded"
+LEVEL_TEXT = "exploration: the shared URL frame and the wrapper layers are proved, and for nurikabe / nurimisaki / sudoku / slitherlink / masyu, and yajilin boards whose clue numbers are 0..15, the body round trip is carried by C15's lemmas (listed in C15's evidence); agreement with puzz.link's own reader, yajilin clues >= 16 (known finding) / heyawake / lits / norinori / compass bodies and the legacy encoders stay bounded; the puzzle bodies (combinator compositions, legacy encoders) are checked on seeded problems per module and board shape; three oracles"
 LEVEL_NOTE = "trusted: specs/pzpr.py as the pzpr format (validated on recorded pairs); generators"
